@@ -625,11 +625,12 @@ func (s *Stmt) Render() string {
 }
 
 // SpellName writes a field name as the query must spell it: a name that is
-// not a plain word (letters, digits, underscores) needs backquotes.
+// not a plain lower-case word (letters, digits, underscores) needs backquotes.
 func SpellName(name string) string {
 	for i := 0; i < len(name); i++ {
 		c := name[i]
-		if !(c == '_' || (c >= 'a' && c <= 'z') || (c >= 'A' && c <= 'Z') || (i > 0 && c >= '0' && c <= '9')) {
+		// (a capital letter too: a bare word is folded to lower case)
+		if !(c == '_' || (c >= 'a' && c <= 'z') || (i > 0 && c >= '0' && c <= '9')) {
 			return "`" + name + "`"
 		}
 	}
